@@ -543,6 +543,7 @@ def body (cfg : Cfg) (st : St) (pfx : Str) : Cmd → St × Bool
   | .chanCapSet chan caps =>
     if !st.opGuard pfx chan then (st, false)
     else if caps.isEmpty || !caps.all noSpaces then (st, false)
+    else if !caps.all C03.isCapability then (st, false)      -- checked before the live record is touched
     else
       let c := st.chan chan
       let r := addCaps c.caps caps
@@ -551,6 +552,7 @@ def body (cfg : Cfg) (st : St) (pfx : Str) : Cmd → St × Bool
   | .chanCapUnset chan caps =>
     if !st.opGuard pfx chan then (st, false)
     else if caps.isEmpty || !caps.all noSpaces then (st, false)
+    else if !caps.all C03.isCapability then (st, false)
     else
       let c := st.chan chan
       let r := removeCaps c.caps caps
